@@ -237,7 +237,11 @@ func c11R1(c *Ctx) {
 		c.Check(s.RHS != nil && exprString(s.RHS) == "metav1.Now()", "C11.R1", "PodLastSeen set to the current time in "+s.Fn.Name, p.Pos(s.Node), s.Fn.Key(), "= metav1.Now()", exprString2(s.Node))
 		if s.Fn == fn {
 			p.Func(podENICtlPkg, "ReconcilePodENI.podRequirePodENI") // anchor: the requirement names the predicate
-			c.Require("C11.R1", "PodLastSeen refreshed only while the pod exists and needs the record", fn, s.Node, "err == nil && m.podRequirePodENI(ctx, p)", nil)
+			if errName, pred := podGetAndPredicate(p, fn); pred != "" {
+				c.Require("C11.R1", "PodLastSeen refreshed only while the pod exists and needs the record", fn, s.Node, errName+" == nil && "+pred, nil)
+			} else {
+				c.Undec("C11.R1", "PodLastSeen refreshed only while the pod exists and needs the record", p.Pos(s.Node), fn.Key(), "the pod's Get and the podRequirePodENI test", "not recognised")
+			}
 		}
 	}
 }
